@@ -73,7 +73,11 @@ def extract(unit, canary, tag=""):
 
 
 def run_verus(path, extra=(), logdir=None, timeout=1500):
-    cmd = ["verus", os.path.basename(path)] + VERUS_FLAGS + list(extra)
+    flags = list(VERUS_FLAGS)
+    if "--multiple-errors" in extra:
+        i = flags.index("--multiple-errors")
+        del flags[i:i + 2]
+    cmd = ["verus", os.path.basename(path)] + flags + list(extra)
     if logdir:
         cmd += ["--log", "air", "--log-dir", logdir]
     t0 = time.time()
@@ -170,6 +174,19 @@ def classify(unit, vxlog, gen_lines, res):
                 m = LABEL_RE.search(t["text"])
                 if m and (s.get("label") or "").startswith("failed this") or (m and s is prim and kind in ("postcondition not satisfied", "invariant not satisfied")):
                     label = m.group(1)
+        if label is None and kind in ("postcondition not satisfied", "invariant not satisfied", "assertion failed"):
+            for s_ in spans:
+                if s_ is prim or (s_.get("label") or "").startswith("failed this"):
+                    ln = s_["line_start"]
+                    for cand in (ln - 1, ln - 2):
+                        if 1 <= cand <= len(gen_lines):
+                            t_ = gen_lines[cand - 1].strip()
+                            m = LABEL_RE.search(t_)
+                            if m and (t_.startswith("/*[") or t_.startswith("assert(/*[")):
+                                label = m.group(1)
+                                break
+                if label:
+                    break
         if f is None:
             # failure in hand-written prelude/lemma text: machinery problem, not a finding
             undec.append({"unit": unit, "reason": f"obligation failed outside any function under contract (line {line}): {msg}", "text": text})
@@ -282,7 +299,7 @@ def run_unit(unit, tier, seed):
     subprocess.run(["rm", "-rf", logdir])
     with ThreadPoolExecutor(max_workers=2) as ex:
         fut_main = ex.submit(run_verus, out, (), logdir)
-        fut_can = ex.submit(run_verus, cout, ())
+        fut_can = ex.submit(run_verus, cout, ("--multiple-errors", "0", "--rlimit", "1"))
         res = fut_main.result()
         cres = fut_can.result()
     r["cmds"].append(res["cmd"])
@@ -336,20 +353,24 @@ def run_unit(unit, tier, seed):
         cerr_lines = set()
         for d in cres["diags"]:
             if d.get("level") == "error":
-                for s in d.get("spans", []):
-                    cerr_lines.add(s["line_start"])
+                for s_ in d.get("spans", []):
+                    cerr_lines.add(s_["line_start"])
         cgen = open(cout).read().splitlines()
+        failed_fns = set(v["fn"] for v in viol)
         for f in cvxlog["functions"]:
-            if f.get("sigonly"):
-                continue
-            if "canary_start" not in f:
-                continue  # trait-impl methods have no canary copy (recorded in evidence)
-            lines_with_err = [l for l in cerr_lines if f["canary_start"] <= l <= f["canary_end"]]
-            if not lines_with_err:
-                can_bad.append(f"{f['fn']}: `ensures false` verified (contradictory requires / body never returns)")
-        for i, l in enumerate(cgen):
-            if "VXCANARY-LOOP" in l and (i + 1) not in cerr_lines:
-                can_bad.append(f"loop canary at generated line {i+1} verified (contradictory invariant or dead loop)")
+            if f.get("sigonly") or f["fn"] in failed_fns:
+                continue  # a function with a real failing obligation cannot be judged for vacuity (first error only)
+            for c in f.get("canaries", []):
+                if c["kind"] == "ensures_false":
+                    if not [l for l in cerr_lines if c["start"] <= l <= c["end"]]:
+                        can_bad.append(f"{f['fn']}: `ensures false` verified (contradictory requires / body never returns)")
+                else:
+                    aline = [i + 1 for i in range(c["start"] - 1, c["end"]) if "VXCANARY-LOOP" in cgen[i]]
+                    if not aline:
+                        can_bad.append(f"{f['fn']}: {c['kind']} canary assert not emitted")
+                    elif aline[0] not in cerr_lines and not [l for l in cerr_lines if c["start"] <= l <= c["start"] + 3]:
+                        # (an rlimit error reported on the copy's header also means `false` was not proved)
+                        can_bad.append(f"{f['fn']}: {c['kind']} body `assert(false)` verified (contradictory invariant or unreachable loop)")
     r["canary_ok"] = not can_bad
     if can_bad:
         undec.append({"unit": unit, "reason": "vacuity guard", "details": can_bad})
@@ -426,6 +447,11 @@ def main():
         for v in r["violations"]:
             if only and v["fn"] not in only:
                 continue
+            if v["label"]:
+                # labelled clauses name the properties they serve: /*[C08+C13.name]*/
+                owners = v["label"].split(".")[0].split("+")
+                if all(re.fullmatch(r"C\d+", o) for o in owners) and pid not in owners:
+                    continue
             if v["id"] in kprop:
                 known_hit.append((v, kprop[v["id"]]))
             else:
